@@ -29,8 +29,9 @@ REQUIRED_CLASSES = [
     "interval_grid:edge_inside_interval",
     "interval_grid:empty_result",
     "interval_grid:degenerate_window",
-    "interval_random:empty_result", "interval_random:after_in_place_edit", "interval_random:coinciding_points",
+    "interval_random:empty_result", "interval_random:edge_almost_on_boundary", "interval_random:after_in_place_edit", "interval_random:coinciding_points",
     "textgrid_random:empty_result_some_tier",
+    "textgrid_random:tiers_with_own_span",
 ]
 
 MODES = ["strict", "lax", "truncated"]
@@ -112,6 +113,11 @@ def classify(entries, a, b, is_interval):
     cl = []
     if a >= b:
         return ["degenerate_window"]
+    for en in entries:
+        for t in en[:-1]:
+            for w in (a, b):
+                if t != w and abs(t - w) <= 1e-9 * max(abs(t), abs(w)):
+                    cl.append("edge_almost_on_boundary")
     bounds = set()
     inside = False
     for en in entries:
@@ -200,6 +206,8 @@ def run_tg_case(case):
         with quiet():
             if res.validate("silence") is not True:
                 raise Violation("invalid-result", "Textgrid.crop result does not validate")
+    if any((t["minT"], t["maxT"]) != (spec["minT"], spec["maxT"]) for t in spec["tiers"]):
+        classes.append("tiers_with_own_span")
     classes = sorted(set(classes))
     return {"classes": classes, "nontrivial": bool(classes)}
 
@@ -274,6 +282,10 @@ def window_for(draw, entries_list, style, maxT):
     cands = list(bounds)
     cands += [(x + y) / 2 for x, y in zip(bounds, bounds[1:])]
     cands += [0.0, maxT, maxT + 1.0]
+    if style != "grid" and bounds:
+        # edges a few ulps / 1e-11 relative away from a boundary: unequal, but inside the library's fuzzy equality
+        near = [v for b_ in bounds[:4] for v in gen.near_values(b_)]
+        cands += near
     pick = st.one_of(st.sampled_from(cands), gen.time_of(style), st.just(-0.5))
     a = draw(pick)
     b = draw(pick)
@@ -301,8 +313,10 @@ def tier_cases(draw):
 @st.composite
 def tg_cases(draw):
     style = draw(gen.STYLES_ARITH)
-    spec = draw(gen.textgrid(style=style, max_tiers=4))
+    spec = draw(gen.textgrid(style=style, max_tiers=4, clean=draw(st.integers(0, 3)) > 0))
     a, b = draw(window_for([t["entries"] for t in spec["tiers"]], style, spec["maxT"]))
+    if draw(st.integers(0, 5)) == 0:
+        a, b = spec["minT"], spec["maxT"]  # the textgrid's own extent
     return {"tg": spec, "a": a, "b": b, "mode": draw(st.sampled_from(MODES)), "rebase": draw(st.booleans())}
 
 
